@@ -2,7 +2,8 @@
    intact. Statements only; proofs are in Proofs/Store*.v; the model is
    Schema/StoreModel.v, the vocabulary Spec/StoreSpec.v. *)
 From PyGql Require Import Spec.StoreSpec Proofs.StoreProofs Proofs.StoreHeal Proofs.StoreLoop
-     Proofs.StoreFrame Proofs.StoreClone Proofs.StoreOps Proofs.StoreTerm.
+     Proofs.StoreFrame Proofs.StoreClone Proofs.StoreOps Proofs.StoreTerm Proofs.StoreObserve
+     Spec.StoreExtSpec Proofs.StoreExtendP Proofs.StoreExtPres Proofs.StoreVis.
 Local Open Scope N_scope.
 
 (* Schema(query, mutation, subscription, directives, types): whenever the
@@ -72,6 +73,60 @@ Theorem C14_source_untouched : forall fuel m s ops m1 c m' c',
 Proof. exact clone_then_ops_frame. Qed.
 Print Assumptions C14_source_untouched.
 
+(* ... hence the observable dump of the source (and of any schema s0 whose
+   cells all exist, i.e. without dangling references) is the same before and
+   after: [observe] only reads the cells of its footprint. *)
+Theorem C14_source_untouched_observe : forall fuel m s ops m1 c m' c' s0,
+  fresh_ok m -> builtins_ok m -> closed m s -> wf_schema m s -> wf_builtins s ->
+  Forall (vop_ok (m_next m)) ops ->
+  clone fuel m s = Ok (m1, c) -> run_vops fuel ops m1 c = Ok (m', c') ->
+  Forall (fun o => mget m o <> None) (footprint m (touch_poss m s0)) ->
+  observe m' (touch_poss m' s0) = observe m (touch_poss m s0).
+Proof.
+  intros fuel m s ops m1 c m' c' s0 Hf Hb Hcl Hwf Hbi Hok Hc Hops Hex.
+  destruct (clone_then_ops_frame _ _ _ _ _ _ _ _ Hf Hb Hcl Hwf Hbi Hok Hc Hops) as (Hfr & _).
+  eapply frame_observe; eauto.
+Qed.
+Print Assumptions C14_source_untouched_observe.
+
+(* extend_schema (strict mode, without its final validate()): being the result
+   of Schema(...) over the rebuilt types, the extended schema is closed. *)
+Theorem C14_extend_closed : forall fuel m s doc m' s',
+  fresh_ok m -> builtins_ok m -> extend fuel m s doc = Ok (m', s') ->
+  closed m' s' /\ names_ok m' (s_types s').
+Proof. exact extend_closed. Qed.
+Print Assumptions C14_extend_closed.
+
+(* extend_schema builds the extended schema next to the source: every object
+   that was in the heap before is unchanged, and so is the observable dump of
+   every schema without dangling references -- for every extension document. *)
+Theorem C14_extend_source_untouched : forall fuel m s doc m' s',
+  extend fuel m s doc = Ok (m', s') ->
+  (forall o, o < m_next m -> mget m' o = mget m o) /\
+  forall s0, fresh_ok m -> Forall (fun o => mget m o <> None) (footprint m (touch_poss m s0)) ->
+             observe m' (touch_poss m' s0) = observe m (touch_poss m s0).
+Proof.
+  intros fuel m s doc m' s' H. pose proof (extend_frame _ _ _ _ _ _ H) as Hfr. split; [exact Hfr|].
+  intros s0 Hf Hex. eapply frame_observe; eauto.
+Qed.
+Print Assumptions C14_extend_source_untouched.
+
+(* Everything the extension document does not mention is preserved: every
+   non-specified type of the source is registered again under its name, with
+   its kind, description, default / type resolver and directives (followed by
+   those of its extensions), and its fields / input fields -- as copies that
+   keep name, python name, description, deprecation reason, default, resolver,
+   subscription resolver, directives, and argument by argument the same for
+   their arguments -- or its enum values (the same objects), in order, before
+   anything the document adds; a type without extension gets nothing added. *)
+Theorem C14_extend_preserved : forall fuel m s doc m' s',
+  fresh_ok m -> builtins_ok m -> wf_schema m s ->
+  extend fuel m s doc = Ok (m', s') ->
+  forall n t, In (n, t) (s_types s) -> is_builtin t = false ->
+    exists self, alookup n (s_types s') = Some self /\ type_preserved doc m' n t self.
+Proof. exact extend_preserved. Qed.
+Print Assumptions C14_extend_preserved.
+
 (* The same for operations applied in place to any schema that owns its
    objects above a watermark (e.g. an earlier clone): nothing below the
    watermark changes. *)
@@ -90,16 +145,36 @@ Theorem C14_visibility_partial : forall fuel m s tu du m' s' n,
 Proof. exact removed_stays_removed. Qed.
 Print Assumptions C14_visibility_partial.
 
-(* full statement (not proved): the visibility transform removes exactly the
-   rejected types, and rejected fields / input fields are in no member list *)
-Definition C14_visibility_full : Prop :=
+(* VisibilitySchemaTransform, for every predicate record: after the transform
+   and all the healing it triggers, every registered type was registered
+   before and is a specified scalar or accepted by is_type_visible -- the
+   rejected types are gone. Together with closedness (C14_replace_closed:
+   every type reachable through fields, arguments, input fields, interfaces,
+   union members, roots, implementations and possible types is a registered
+   one) rejected types are unreachable. *)
+Theorem C14_visibility_types : forall fuel p m s m' s',
+  fresh_ok m -> builtins_ok m -> NoDup (map fst (s_types s)) ->
+  (forall n o, In (n, o) (s_types s) -> tname m o = Some n) ->
+  on_schema fuel (vis_visitor p) m s = Ok (m', s') ->
+  forall n, In n (map fst (s_types s')) ->
+    exists o, In (n, o) (s_types s) /\ (is_builtin o = true \/ vp_type p n = true).
+Proof. exact vis_types_removed. Qed.
+Print Assumptions C14_visibility_types.
+
+(* full statement for members (not proved): rejected fields / input fields are
+   in no member list of a registered type *)
+Definition C14_visibility_members_full : Prop :=
   forall fuel p m s m' s',
     wf_schema m s -> closed m s ->
-    transform fuel (vis_visitor p) m s = Ok (m', s') ->
+    on_schema fuel (vis_visitor p) m s = Ok (m', s') ->
     forall n o, In (n, o) (s_types s') ->
-      (is_builtin o = true \/ vp_type p n = true) /\
       forall f fn, In f (match mget m' o with Some (OType _ _ _ ms _ _ _) => ms | _ => [] end) ->
-                   oname m' f = Some fn -> vp_field p n fn = true \/ vp_inf p n fn = true.
+                   oname m' f = Some fn ->
+                   match tkind m' o with
+                   | Some Kobject | Some Kinterface => vp_field p n fn = true
+                   | Some Kinput => vp_inf p n fn = true
+                   | _ => True
+                   end.
 
 (* Preservation: healing keeps, for every object of the heap, its name, kind,
    python name, description, deprecation reason, default, resolver,
@@ -226,4 +301,23 @@ Proof.
     destruct Hin. }
   split; [exact Hg|]. split; [vm_compute; reflexivity|].
   apply C14_heal_terminates; auto.
+Qed.
+
+(* extending the example schema: a new field, a new enum value, a new type *)
+Example C14_example_extend :
+  exists s m' s',
+    build 50 ex_mem (Some 10) None None [] [] = Ok s /\
+    extend 50 ex_mem s
+      (MkExt false
+         [NTypeDef (str_of_string "New") Kobject None
+            (NBFields [NField (str_of_string "id") (NNamed (str_of_string "ID")) [] None None []] []) []]
+         [NTypeExt (str_of_string "Query") Kobject
+            (NBFields [NField (str_of_string "n") (NNamed (str_of_string "New")) [] None None []] []) [];
+          NTypeExt (str_of_string "E") Kenum (NBValues [NValue (str_of_string "B") None None []]) []]
+         [] []) = Ok (m', s') /\
+    map fst (s_types s') = (map fst builtin_types ++ [str_of_string "Query"; str_of_string "E"; str_of_string "New"])%list.
+Proof.
+  destruct (build 50 ex_mem (Some 10) None None [] []) as [s| | |] eqn:Hb; try (vm_compute in Hb; discriminate).
+  exists s. vm_compute in Hb. inversion Hb; subst s.
+  eexists. eexists. split; [reflexivity|]. split; [vm_compute; reflexivity|vm_compute; reflexivity].
 Qed.
